@@ -41,3 +41,7 @@ package common
 //@ ensures result == (s == "Query" || s == "Mutation" || s == "Subscription")
 //@ modifies fresh
 //@ end
+
+//@ func SelectionSetToFields
+//@ props C07
+//@ end
